@@ -399,12 +399,14 @@ class LoopSpec:
     the syntactically assigned ones."""
 
     def __init__(self, inv, k='k', types=None, extra_havoc=(), facts=(), exit=None, body_post=None, hints=None,
-                 head_hook=None):
+                 head_hook=None, peel=False):
         self.inv = list(inv.items()) if isinstance(inv, dict) else list(inv)
         self.exit = dict(exit or {})
         self.body_post = dict(body_post or {})   # checked at the end of every iteration (Y0 = output at loop head)
         self.hints = dict(hints or {})           # proved (own obligation) right after the invariant is assumed, then used
         self.head_hook = head_hook               # fn(engine, frame): ghost bookkeeping at the head of the arbitrary iteration
+        self.peel = peel                         # run the first iteration from the real entry state (variables that are None
+        #                                          before the loop), the inductive step then covers k >= 1 only
         self.k = k
         self.types = types or {}
         self.extra_havoc = tuple(extra_havoc)
@@ -2175,6 +2177,26 @@ class Engine:
         # inductive treatment over a symbolic range / sequence
         seq = self.as_indexable(it)
         kname = spec.k
+        if spec.peel:
+            fr.env[kname] = 0
+            for iname, itext in spec.inv:
+                self.check('inv.init/loop%d/%s' % (ordinal, iname), self.spec_eval(itext, fr), kind='inv.init')
+            if not self.branch(seq.has(z3.IntVal(0))):
+                self.exec_block(node.orelse, fr)        # empty sequence: the loop is skipped with the entry state
+                return
+            if self.branch(fresh(BOOL, 'first_iteration').z):
+                # the first iteration, from the real entry state
+                self.assign(node.target, seq.at(self, z3.IntVal(0)), fr)
+                try:
+                    self.exec_block(node.body, fr)
+                except _Continue:
+                    pass
+                except _Break:
+                    return
+                fr.env[kname] = 1
+                for iname, itext in spec.inv:
+                    self.check('inv.first/loop%d/%s' % (ordinal, iname), self.spec_eval(itext, fr), kind='inv.step')
+                raise PathEnd()
         self.loop_entry(spec, ordinal, fr, node, seq)
         k = fr.env[kname]
         kz = zterm(k, INT)
@@ -2349,9 +2371,10 @@ class Engine:
                 obj.attrs[a] = SymList.from_concrete(obj.attrs[a], t[1], t[2] if len(t) > 2 else None, '%s.%s' % (b, a))
 
         snapshot_all('entry')
-        for iname, itext in spec.inv:
-            g = self.spec_eval(itext, fr)
-            self.check('inv.init/loop%d/%s' % (ordinal, iname), g, kind='inv.init')
+        if not spec.peel:
+            for iname, itext in spec.inv:
+                g = self.spec_eval(itext, fr)
+                self.check('inv.init/loop%d/%s' % (ordinal, iname), g, kind='inv.init')
 
         # ---- havoc rebound names
         for name in sorted(mods):
@@ -2421,7 +2444,7 @@ class Engine:
                 fr.yields = SymSeq.fresh(y.types, y.arity, 'Y')
         kk = fresh(INT, kname)
         fr.env[kname] = kk
-        self.assume(kk.z >= 0)
+        self.assume(kk.z >= (1 if spec.peel else 0))
         if seq is not None:
             self.assume(seq.reached(kk.z))
         for iname, itext in spec.inv:
@@ -2598,18 +2621,28 @@ def _sf_exists(eng, node, fr):
     return _sf_forall(eng, node, fr, exists=True)
 
 
+def _quantified(e):
+    todo, seen = [e], set()
+    while todo:
+        x = todo.pop()
+        if x.get_id() in seen:
+            continue
+        seen.add(x.get_id())
+        if z3.is_quantifier(x):
+            return True
+        todo.extend(x.children())
+    return False
+
+
 def _sf_implies(eng, node, fr):
     eng.pure += 1
     try:
         a = eng.ztruth(eng.eval(node.args[0], fr))
         if a is False or (not isinstance(a, bool) and z3.is_false(z3.simplify(a))):
             return True
-        if not isinstance(a, bool):
-            sv = z3.Solver()
-            sv.set('timeout', 500)
-            sv.add(a)
-            if sv.check() == z3.unsat:
-                return True      # antecedent unsatisfiable on its own (e.g. 0 <= j < len([]))
+        if not isinstance(a, bool) and not _quantified(a):
+            if not eng.feasible(a):
+                return True      # antecedent unsatisfiable under the path condition (e.g. 0 <= j < len([]))
         b = eng.ztruth(eng.eval(node.args[1], fr))
     finally:
         eng.pure -= 1
